@@ -141,7 +141,8 @@ RefSlow == RunSlow(Started(Built))
 \* controller commands, issued between run() calls.  cmd = [op, a, b]
 Snap(op, a, err, s, why) ==
     [op |-> op, a |-> a, err |-> err, proc |-> s.proc, heap |-> Cardinality(s.heap), nprim |-> s.nprim,
-     paused |-> s.paused, running |-> s.running, clock |-> s.clock, nd |-> Len(s.delivered), why |-> why]
+     paused |-> s.paused, running |-> s.running, clock |-> s.clock, nd |-> Len(s.delivered), why |-> why,
+     by |-> pend.op, clean |-> pend.clean, nd0 |-> pend.nd0, n |-> pend.n]
 
 Attach(c) == [c EXCEPT !.att = TRUE]
 Quiet(c) == c.bps = {} /\ c.hp = {}
